@@ -388,6 +388,10 @@ def check(run):
     run.rule("R03.7", "a where= mask given as a Tensor is unwrapped before it reaches a NumPy kernel", floor=1)
     run.rule("R03.6", "Tensor.__array_ufunc__ evaluates forwarded (non-differentiable) ufuncs through getattr(ufunc, method), as NumPy would", floor=1)
     run.rule("R03.4", "Tensor._op hands Python scalars to the kernel unconverted; array operands are adopted as is", floor=2)
+    run.rule("R03.8", "a parameter inspected with isinstance is still used when it is of none of the tested types (no silently ignored argument)", floor=24)
+    from .util import type_narrowed_dead_params
+    n = type_narrowed_dead_params(run, "R03.8", [f for f in run.project.all_functions() if not f.module.name.startswith("mygrad.nnet")])
+    run.count("type-tested parameters", n)
     r03_1(run)
     r03_2(run)
     r03_3(run)
